@@ -315,7 +315,7 @@ EXTRA_TEXT = {
     "C02": "Edit histories on live objects (in-place walks; a pruned subtree grafted into several trees that all stay alive) are judged after every step against TLC's exact vectors - also the trees not edited in that step.",
     "C03": "Further settings: samples whose likelihoods differ by 900 nats; every forest on 5 points also rebuilt by cutting a clone's subtree out and grafting a fresh one (same shape, or one clone) where it hung.",
     "C04": "Single reassignments beyond these sizes: for deep forests on 4-5 points TLC (MoveRel.tla) gives the candidate set of a reassignment, the real DataPointSampler._sample_tree is run from every member with all outcomes enumerated, and the block must be invariant.",
-    "C05": "Multi-sample files mix copy numbers, error rates, tumour contents and zero-depth samples (no reads in the first or the middle sample) per row.",
+    "C05": "LossProb.tla (option resolution of run(), cluster-table column, truncal cluster, lost-cluster test with the exact law of distinct chromosomes, prior terms; all instances over 3 clusters x 2 samples x 128 option records model-checked) gives the prior of every cluster for 60+ harness instances (thorough 240+) driven through phyclone.run.run up to the end of load_data: each data point's two prior terms must be size x log p / size x log(1-p) for the probability the documented options and the cluster table resolve to; a differing truncal cluster alone is MODEL-DRIFT. A cluster file listing mutations the loader drops: every data point is the sum of its kept members' grids. Multi-sample files mix copy numbers, error rates, tumour contents and zero-depth samples (no reads in the first or the middle sample) per row.",
     "C06": "Walks on data of magnitude 1e5 and histories on a 1000-point grid (FFT path; a fixed sibling history plus random walks) are snapshotted step by step and compared at the end with rebuilds made with cold memo tables.",
     "C07": "Every forest on 5 points is also rebuilt the way the subtree move builds trees (cut a clone's subtree, graft a fresh one of the same shape or one clone); the recorded entries of chains on nested-clone data with outliers are re-verified at the END of the run.",
     "C09": "The order each sampler actually hands to its SMC pass (burn-in and particle Gibbs; the SMC classes replaced by a capturing stub) must have the same law.",
@@ -323,8 +323,8 @@ EXTRA_TEXT = {
     "C12": "Traces holding several different trees, incl. exact 50/50 splits between incompatible clades, go through all commands (counts / weighted / threshold 0.75): they must complete with complete, tree-consistent tables.",
     "C13": "In the recorded chains every particle of every final swarm must carry the fixed-root density of its tree under the concentration value current at that moment.",
     "C14": "The real key objects of the two convolution memo tables are built for 2e5 (thorough 4e5) different grids: no two may agree (a collision is then demonstrated on the real cache).",
-    "C17": "Error rates vary per row within a copy-number state.",
-    "C18": "One chain on a 512-point grid is run twice with the first calls of the direct / of the FFT convolution routine slowed down (results untouched).",
+    "C17": "Error rates vary per row within a copy-number state. Clustered inputs with per-cluster prior columns / --assign-loss-prob (instances of LossProb.tla incl. truncal ties and Monte-Carlo borderline cases) are loaded in 4 (thorough 6) row orders of both files, reversed and shuffled, with a fixed seed: identical data points required.",
+    "C18": "Chains.tla also models the loader's draws on the parent stream before the chains exist and worker processes with process-global memo tables (a queued chain may start on a used worker: ColdStartPerChain). Real runs added: clustered input with --assign-loss-prob (1 and 2 chains), the loader under 6 hash seeds on borderline clustered inputs, a 3-chain run in which ONE worker process executes all chains (other workers' start-up delayed; which process ran which chain is recorded) against one process per chain. One chain on a 512-point grid is run twice with the first calls of the direct / of the FFT convolution routine slowed down (results untouched).",
     "C19": "A further sweep uses heavy data points (log-likelihoods around -900 per sample row, 3 samples).",
     "C20": "Every file the writer creates beside the trace counts as run output (crash points: earlier files complete, the current one cut at any byte, later ones absent); in the real-crash part the checking process has already summarised the older run before the re-write is killed.",
 }
